@@ -222,6 +222,30 @@ func fixedBufferCleaner(c *Ctx) {
 		}
 	}
 	q.add("PROV", "two outcomes: forced trim or the default cleaner", nForced >= 1 && nDefault >= 1, "every return is the forced trim or the delegation (each checked above)")
+	// the constructor hands out that closure for every (max, target): a configuration that silently gets another
+	// cleaner (e.g. DefaultCleaner when target == max) never forces a trim, and the buffer is no longer bounded by max
+	pq := &fq{c: c, fn: par, name: "FixedBufferCleaner"}
+	for _, r := range returnsOf(par) {
+		okc := false
+		for _, v := range c.retVals(r, 0) {
+			okc = false
+			for _, s := range P.Sources(v) {
+				if ci, isCI := s.(*ssa.ChangeType); isCI {
+					s = ci.X
+				}
+				if mc, isMC := s.(*ssa.MakeClosure); isMC && mc.Fn == ssa.Value(q.fn) {
+					okc = true
+				} else {
+					okc = false
+					break
+				}
+			}
+			if !okc {
+				break
+			}
+		}
+		pq.add("PROV", "every configuration gets the threshold cleaner", okc, pickS(okc, "the result is the closure checked above", "FixedBufferCleaner can return something other than its threshold closure: for those (max, target) no trim is ever forced and the buffer is not bounded by max"), r)
+	}
 }
 
 func cleanupLogic(c *Ctx) {
@@ -280,6 +304,30 @@ func cleanupLogic(c *Ctx) {
 		}
 		q.add("COND", "a cleanup pass reports a change only if it removed at least one value", okp,
 			pickS(okp, "the true return is reached only after buffer[s:] with s > 0 (tested after the clamp)", "cleanupLogic can report a change after a shift of 0 (e.g. the clamp to len(buffer) applied after the s <= 0 test): the cleaner repeats the pass for ever with the buffer locked"), r)
+	}
+	// and the converse: a pass that removed something says so (the cleaner goroutine re-checks only then; the
+	// broadcast made here cannot wake the goroutine that is running this very pass)
+	for _, r := range returnsOf(q.fn) {
+		if !P.PathExists(q.fn, sl, an.Is(r), nil, nil) {
+			continue
+		}
+		okr := true
+		for _, v := range c.retVals(r, 0) {
+			if b, isB := constBool(v); isB {
+				okr = okr && b
+				continue
+			}
+			// a computed result: it must follow from what the path to the return established
+			l := P.CondLit(v, true)
+			g := P.PathCond(q.fn, nil, r, func(f string) bool { return an.FormBase(f) == an.FormBase(l.Form) })
+			imp := len(g) > 0
+			if imp {
+				imp, _ = an.ImpliesDNF(g, an.DNF{an.Conj{l.Form: l.Set}})
+			}
+			okr = okr && imp
+		}
+		q.add("PATH", "a cleanup pass that removed values reports a change", okr,
+			pickS(okr, "every return after buffer[s:] yields true", "after shifting the buffer cleanupLogic can report 'no change': the cleaner goroutine then does not re-check, and whatever the pass left behind (a partial trim by FixedBufferCleaner or a custom cleaner) stays buffered with no further activity"), r)
 	}
 	// upper bound: s <= len(buffer)
 	// (the value may come out of a helper that is analysed as part of this function)
